@@ -363,6 +363,7 @@ package fsutil
 //@   ensures exact: arg(Utimes, 1) * 1000000000 + arg(Utimes, 2) == un && 0 <= arg(Utimes, 2) && arg(Utimes, 2) < 1000000000
 //@   ensures both: arg(Utimes, 3) == arg(Utimes, 1) && arg(Utimes, 4) == arg(Utimes, 2)
 //@   ensures nofollow: arg(Utimes, 5) == unix.AT_SYMLINK_NOFOLLOW
+//@   ensures last: when(Utimes) == clk()
 
 // xattrs, then owner, then mode (never on a symlink), then times: chown after
 // chmod would drop setuid/setgid, anything after the times would disturb them
@@ -378,3 +379,61 @@ package fsutil
 //@   ensures times: result == nil ==> cnt(Utimes) == old(cnt(Utimes)) + 1 && arg(Utimes, 0) == p && arg(Utimes, 1) * 1000000000 + arg(Utimes, 2) == stat.ModTime && arg(Utimes, 5) == unix.AT_SYMLINK_NOFOLLOW
 //@   ensures order: result == nil ==> (cnt(Setxattr) > old(cnt(Setxattr)) ==> when(Setxattr) < when(Lchown)) && when(Lchown) < when(Utimes) && (specNoSymlink(stat.Mode) ==> when(Lchown) < when(Chmod) && when(Chmod) < when(Utimes))
 //@   ensures atmost: cnt(Lchown) <= old(cnt(Lchown)) + 1 && cnt(Chmod) <= old(cnt(Chmod)) + 1 && cnt(Utimes) <= old(cnt(Utimes)) + 1
+
+// the digest header is the caller's hash of the entry's stat as sent
+//@ func newHashWriter
+//@   property C05
+//@   effects HashNew
+//@   ensures hdr: result1 == nil ==> result0 != nil && cnt(HashNew) == old(cnt(HashNew)) + 1 && arg(HashNew, 0) == asptr(fi.Sys(), types.Stat) && result0.w == w
+//@   ensures nostat: !isptr(fi.Sys(), types.Stat) ==> result1 != nil
+
+// the digest is finalised, then the underlying writer (if any) is closed
+//@ func hashedWriter.Close
+//@   property C05
+//@   requires hw != nil
+//@   modifies hw.dgst
+//@   effects DigestFinal PipeClose
+//@   ensures final: cnt(DigestFinal) == old(cnt(DigestFinal)) + 1 && arg(DigestFinal, 0) == old(hw.h)
+//@   ensures close: old(hw.w) != nil ==> cnt(PipeClose) == old(cnt(PipeClose)) + 1 && arg(PipeClose, 0) == old(hw.w) && when(DigestFinal) < when(PipeClose)
+//@   ensures noclose: old(hw.w) == nil ==> cnt(PipeClose) == old(cnt(PipeClose)) && result == nil
+
+// exactly one notification per processed change, as the last event, after the
+// content callback (content entries) or after the digest is finalised (others)
+//@ func DiskWriter.processChange
+//@   property C05 C01
+//@   requires dw != nil
+//@   modifies type hashedWriter
+//@   effects Notify DataCb HashNew DigestFinal PipeClose
+//@   ensures silent: dw.opt.NotifyCb == nil ==> cnt(Notify) == old(cnt(Notify))
+//@   ensures once: dw.opt.NotifyCb != nil && result == nil ==> cnt(Notify) == old(cnt(Notify)) + 1 && arg(Notify, 0) == kind && arg(Notify, 1) == p && when(Notify) == clk()
+//@   ensures atmost: cnt(Notify) <= old(cnt(Notify)) + 1 && cnt(DataCb) <= old(cnt(DataCb)) + 1
+//@   ensures content: w != nil && result == nil ==> cnt(DataCb) == old(cnt(DataCb)) + 1 && arg(DataCb, 0) == p && (dw.opt.NotifyCb != nil ==> when(DataCb) < when(Notify))
+//@   ensures nocontent: w == nil ==> cnt(DataCb) == old(cnt(DataCb))
+//@   ensures digest: w == nil && dw.opt.NotifyCb != nil && result == nil ==> cnt(DigestFinal) == old(cnt(DigestFinal)) + 1 && when(DigestFinal) < when(Notify)
+//@   ensures header: dw.opt.NotifyCb != nil && result == nil ==> cnt(HashNew) == old(cnt(HashNew)) + 1 && arg(HashNew, 0) == asptr(fi.Sys(), types.Stat)
+
+// content of a regular file is requested on a separate goroutine
+//@ func DiskWriter.requestAsyncFileData
+//@   property C01 C02 C07
+//@   requires dw != nil
+//@   effects GoSpawn
+//@   ensures spawned: cnt(GoSpawn) == old(cnt(GoSpawn)) + 1
+
+// the asynchronous content job: after the content callback succeeded the
+// file's mtime is re-applied (the write disturbed it) as the last action
+//@ func DiskWriter.requestAsyncFileData$1
+//@   property C01 C05
+//@   requires dw != nil && st != nil
+//@   modifies heap
+//@   effects Notify DataCb HashNew DigestFinal PipeClose Utimes
+//@   ensures mtime_last: result == nil ==> cnt(Utimes) == old(cnt(Utimes)) + 1 && arg(Utimes, 0) == dest && arg(Utimes, 1) * 1000000000 + arg(Utimes, 2) == st.ModTime && when(Utimes) == clk()
+//@   ensures content_first: result == nil ==> cnt(DataCb) == old(cnt(DataCb)) + 1 && when(DataCb) < when(Utimes)
+//@   ensures notify_once: result == nil && dw.opt.NotifyCb != nil ==> cnt(Notify) == old(cnt(Notify)) + 1 && arg(Notify, 0) == ChangeKindAdd && arg(Notify, 1) == p
+
+// directory mtimes recorded at creation are re-applied after all content is written
+//@ func DiskWriter.Wait$1
+//@   property C01
+//@   requires dw != nil
+//@   effects Utimes
+//@   ensures dirtime: result == nil && prevErr == nil && d.IsDir() && haskey(dw.dirModTimes, path) ==> cnt(Utimes) == old(cnt(Utimes)) + 1 && arg(Utimes, 0) == path && arg(Utimes, 1) * 1000000000 + arg(Utimes, 2) == dw.dirModTimes[path]
+//@   ensures other: prevErr != nil || !d.IsDir() || !haskey(dw.dirModTimes, path) ==> cnt(Utimes) == old(cnt(Utimes))
